@@ -42,8 +42,11 @@ def run(op, a):
                     if raw[1] == 0 or raw[33] == 0:
                         break
                     sig = SignMessage(key, m)
-            addr = str(P2PKHBitcoinAddress.from_pubkey(key.pub))
+            aobj = P2PKHBitcoinAddress.from_pubkey(key.pub)
+            addr = str(aobj)
             ok = VerifyMessage(addr, m, sig)
+            if VerifyMessage(aobj, m, sig) != ok:        # the address handed over as the library's own address object
+                ok = not ok
             return [base64.b64decode(sig), text(addr), bool(ok)]
         finally:
             bitcoin.SelectParams('mainnet')
